@@ -42,6 +42,22 @@ def run(tier, rnd, out):
     io = [dec_impl(n) for n in ms]; mo = lib.run_model([lib.req("bitsum", n) for n in ms]); ex = lib.run_model([lib.req("bitsum_spec", n) for n in ms])
     lib.differential(out, "decode", [{"mask": n} for n in ms], io, mo, ex, lambda c: "bit_summary_to_days(%d)" % c["mask"],
                      sample=lambda c: c, classify=lambda c, i: "mask/" + i.split(" ")[0])
+    # the result belongs to the caller: decoding a mask again after the caller changed what it got must give the same set
+    again = []
+    for n in range(2, 255, 2):
+        try:
+            got = tools.bit_summary_to_days(n); got.clear(); got.add(DAYS[(n // 2) % 7])
+        except Exception: pass
+        again.append(dec_impl(n))
+    ms2 = list(range(2, 255, 2))
+    lib.differential(out, "decode-again-after-the-caller-changed-the-result", [{"mask": n} for n in ms2], again,
+                     lib.run_model([lib.req("bitsum", n) for n in ms2]), lib.run_model([lib.req("bitsum_spec", n) for n in ms2]),
+                     lambda c: "bit_summary_to_days(%d), result mutated by the caller, bit_summary_to_days(%d) again" % (c["mask"], c["mask"]), sample=lambda c: c)
+    enc_again = []
+    for m in range(1, 128):
+        l = [d for d in range(7) if m >> d & 1]; enc_impl(1, l); enc_again.append(enc_impl(1, l))
+    lib.differential(out, "encode-twice", [{"days": [d for d in range(7) if m >> d & 1]} for m in range(1, 128)], enc_again, None,
+                     lib.run_model([lib.req("weekdays_spec", 1, [d for d in range(7) if m >> d & 1]) for m in range(1, 128)]), lambda c: "encode(%s) twice" % c["days"])
     # round trip through the real encoder and decoder
     subs = [[d for d in range(7) if m >> d & 1] for m in range(1, 128)]
     rt = [dec_impl(int(enc_impl(1, l)[3:], 16)) if enc_impl(1, l) != "raised" else "raised" for l in subs]
